@@ -14,17 +14,17 @@ git apply SEED/patch.diff || { echo "patch does not apply"; exit 2; }
 demo=$(ls SEED/*_test.go | head -1)
 cp "$demo" "$pkg/zz_seed_demo_test.go"
 echo "== demo WITH change (expect FAIL)"
-go test -vet=off -count=1 -run "$rx" "./$pkg/" > /tmp/seed_with.log 2>&1; w=$?
-tail -3 /tmp/seed_with.log
+go test -vet=off -count=1 -run "$rx" "./$pkg/" > /tmp/seed_with.$id.log 2>&1; w=$?
+tail -3 /tmp/seed_with.$id.log
 git apply -R SEED/patch.diff
 echo "== demo WITHOUT change (expect ok)"
-go test -vet=off -count=1 -run "$rx" "./$pkg/" > /tmp/seed_without.log 2>&1; wo=$?
-tail -2 /tmp/seed_without.log
+go test -vet=off -count=1 -run "$rx" "./$pkg/" > /tmp/seed_without.$id.log 2>&1; wo=$?
+tail -2 /tmp/seed_without.$id.log
 rm -f "$pkg/zz_seed_demo_test.go"
 git apply SEED/patch.diff
 echo "== existing tests WITH change: $pkgs"
-go test -vet=off -count=1 $pkgs 2>&1 | grep -E "^(ok|FAIL|--- FAIL)" | grep -v "TestOpenFail\|TestImmudbStoreEdgeCases\|TestInvalidOpening" > /tmp/seed_tests.log
-cat /tmp/seed_tests.log
+go test -vet=off -count=1 $pkgs 2>&1 | grep -E "^(ok|FAIL|--- FAIL)" | grep -v "TestOpenFail\|TestImmudbStoreEdgeCases\|TestInvalidOpening" > /tmp/seed_tests.$id.log
+cat /tmp/seed_tests.$id.log
 if [ $w -ne 0 ] && [ $wo -eq 0 ]; then
   mkdir -p $dst; cp SEED/patch.diff $dst/; cp "$demo" $dst/; cp SEED/meta.json $dst/meta.agent.json 2>/dev/null
   echo "CONFIRMED -> $dst"
